@@ -174,3 +174,82 @@ def norm_calls(repo: Repo, fn: FuncInfo) -> List[Tuple[ast.Call, str, str]]:
 
     scan(fn.node, top)
     return out
+
+
+def vector_param_calls(repo: Repo, fn: FuncInfo) -> List[Tuple[ast.Call, str, str, str]]:
+    """(call, callee qualname, parameter, kind of the argument) for every argument handed to a parameter that the
+    repository annotates as a VECTOR (VectorType / NPVectorType) - module-level helper functions only (util.functions
+    and friends), resolved through the caller's imports."""
+    out: List[Tuple[ast.Call, str, str, str]] = []
+    top = Kinds(repo, fn)
+
+    def scan(node: ast.AST, kinds: Kinds):
+        for n in walk_shallow(node):
+            if isinstance(n, ast.FunctionDef) and n is not node:
+                inner = Kinds(repo, fn, outer=kinds.env, node=n)
+                inner.attr_env = kinds.attr_env
+                scan(n, inner)
+                continue
+            if not isinstance(n, ast.Call):
+                continue
+            tgt = repo.resolve_expr(fn.module, n.func) if isinstance(n.func, (ast.Name, ast.Attribute)) else None
+            if not isinstance(tgt, FuncInfo) or tgt.cls is not None:
+                continue
+            params = [a for a in tgt.node.args.args]
+            for i, arg in enumerate(n.args):
+                if i < len(params) and ann_kind(params[i].annotation) == V:
+                    out.append((n, tgt.qualname, params[i].arg, kinds.kind(arg)))
+            for kw in n.keywords:
+                for p in params:
+                    if kw.arg == p.arg and ann_kind(p.annotation) == V:
+                        out.append((n, tgt.qualname, p.arg, kinds.kind(kw.value)))
+
+    scan(fn.node, top)
+    return out
+
+
+def kinds_rule(repo: Repo, prop: str, rule_id: str, module_prefixes: Tuple[str, ...] = ("",), floor: int = 5):
+    """Shared rule: within the modules selected, (a) norm() is applied to vectors, never to positions; (b) what is
+    handed to a parameter the repository annotates as a vector (unit_vector(vect: VectorType), angle_between, ...) is a
+    vector - a difference of points or a direction - never a position. Arguments whose kind cannot be determined from
+    the annotations are not judged."""
+    from .report import RuleRun
+
+    r = RuleRun(prop, rule_id, floor=floor, what="positions vs vectors: norm() and vector-annotated parameters receive vectors (differences of points, directions), never positions")
+    undetermined = 0
+    for fn in sorted(repo.all_functions(), key=lambda f: f.qualname):
+        short = fn.module.name[len("classy_blocks.") :] if fn.module.name.startswith("classy_blocks.") else fn.module.name
+        if not any(short.startswith(p) for p in module_prefixes):
+            continue
+        for call, kind, txt in norm_calls(repo, fn):
+            if kind == V:
+                r.ok(fn, f"norm({txt}) of a vector", key=f"norm({txt})")
+            elif kind == P:
+                r.bad(
+                    fn,
+                    f"{fn.qualname} takes the norm of the POSITION '{txt}' (distance from the global origin, not a distance between points): "
+                    "the result changes when the same geometry is placed elsewhere - e.g. default clamp bounds that are right only for a line starting at the origin",
+                    call,
+                    key=f"norm({txt})",
+                )
+            else:
+                undetermined += 1
+        seen: Dict[str, int] = {}
+        for call, callee, param, kind in vector_param_calls(repo, fn):
+            base = f"{callee.split('.')[-1]}({param})"
+            seen[base] = seen.get(base, 0) + 1
+            key = f"{base}#{seen[base]}"
+            if kind == V:
+                r.ok(fn, f"{base} receives a vector", key=key)
+            elif kind == P:
+                r.bad(
+                    fn,
+                    f"{fn.qualname} hands a POSITION to the vector parameter '{param}' of {callee}: '{ast.unparse(call)[:90]}'. A direction must be a difference of "
+                    "points; the position itself is the vector from the global origin, so the result is right only for geometry sitting at the origin",
+                    call,
+                    key=key,
+                )
+            else:
+                undetermined += 1
+    r.note(f"{undetermined} argument(s) whose kind could not be determined from annotations are not judged")
+    return r
